@@ -49,6 +49,9 @@ def std_methods(fail_rpc=None, fail_exc=None):
         M('fail_exc', [P('a', d=True)], fail_exc or exc_body()),
         M('view.vm', [P('a')], ECHO, view=True, ctx='context'),
         M('sub.null', [], {'k': 'const', 'v': enc(None)}),
+        # two methods with different signatures behind the same `functools.wraps` decorator
+        M('deco_a', [P('a')], ECHO, deco=True),
+        M('deco_xy', [P('x'), P('y', d=True)], ECHO, deco=True),
     ]
 
 
@@ -58,7 +61,8 @@ def _ref_noargs(): pass
 def _ref_kwonly(*, k, o='<default>'): pass
 def _ref_a_opt(a='<default>'): pass
 def _ref_a(a): pass
-REF = {'echo': _ref_echo, 'noargs': _ref_noargs, 'kwonly': _ref_kwonly, 'ctxm': _ref_a_opt, 'ctxpos': _ref_a,
+def _ref_xy(x, y='<default>'): pass
+REF = {'deco_a': _ref_a, 'deco_xy': _ref_xy, 'badview': _ref_a_opt, 'echo': _ref_echo, 'noargs': _ref_noargs, 'kwonly': _ref_kwonly, 'ctxm': _ref_a_opt, 'ctxpos': _ref_a,
        'fail_rpc': _ref_a_opt, 'fail_exc': _ref_a_opt, 'view.vm': _ref_a, 'sub.null': _ref_noargs}
 
 
@@ -166,7 +170,9 @@ def generate(tier, rng):
                   'fail_rpc': [[], [1], [1, 2], {'a': 1}, {'z': 1}],
                   'fail_exc': [[], [1], [1, 2], {'z': 1}],
                   'view.vm': [[1], [], [1, 2], {'a': 1}, {'self': 1, 'a': 1}, {'context': 1, 'a': 1}],
-                  'sub.null': [[], [1]]}.items():
+                  'sub.null': [[], [1]],
+                  'deco_a': [[1], {'a': 1}, [1, 2], {'x': 1}, []],
+                  'deco_xy': [{'a': 1}, [1], [1, 2], {'x': 1}, {'x': 1, 'y': 2}, [], [1, 2, 3]]}.items():
         for p in ps:
             for id in (1, ABSENT, 'sid', 0, None):
                 yield case(json.dumps(obj(jsonrpc='2.0', method=m, params=p, id=id)), std)
@@ -280,7 +286,14 @@ C12_REQUESTS = [
     {'jsonrpc': '2.0', 'method': 'echo', 'params': [1], 'id': 1}, {'jsonrpc': '2.0', 'method': 'echo', 'params': [1]},
     {'jsonrpc': '2.0', 'method': 'nosuch', 'id': 2}, {'jsonrpc': '2.0', 'method': 'nosuch'}, {'jsonrpc': '2.0', 'method': 'echo', 'id': 3},
     {'jsonrpc': '2.0', 'method': 'fail_rpc', 'id': 4}, {'jsonrpc': '2.0', 'method': 'fail_exc', 'id': 'five'}, {'jsonrpc': '2.0', 'method': 'fail_exc'},
+    # a failure outside the method body (the view's constructor raises): internal error, handlers run for it too
+    {'jsonrpc': '2.0', 'method': 'badview', 'id': 6}, {'jsonrpc': '2.0', 'method': 'badview'},
 ]
+
+
+def c12_methods():
+    return std_methods() + [M('badview', [P('a', d=True)], ECHO, view=True, initRaises=True)]
+
 C12_DOCS = ['{', '{}', '[]', '[1]', '{"jsonrpc":"2.0","method":1}']
 
 
@@ -296,7 +309,7 @@ def gen_c12(tier, rng):
             continue
         tables = HANDLER_TABLES if (thorough or len(stack) <= 1) else rng.sample(HANDLER_TABLES, 2)
         for table in tables:
-            c = cfg(middlewares=stack, handlers=table)
+            c = cfg(methods=c12_methods(), middlewares=stack, handlers=table)
             reqs = C12_REQUESTS if (thorough or len(stack) <= 1) else rng.sample(C12_REQUESTS, 3)
             for r in reqs:
                 yield case(json.dumps(r), c, tag='c12')
@@ -338,10 +351,15 @@ def run_impl(c):
         out[half] = o
     # the asynchronous dispatcher serving plain (non-coroutine) functions
     out['async_plain'] = S.dispatch(c['cfg'], c['text'], True, coroutine_methods=False)
+    # the asynchronous dispatcher with concurrent batch execution switched off
+    seq_cfg = dict(c['cfg'], concurrent_batch=False)
+    out['async_seq'] = S.dispatch(seq_cfg, c['text'], True)
+    if c.get('elementwise') and 'elements' in out['async']:
+        out['async_seq']['elements'] = [S.dispatch(seq_cfg, json.dumps(e), True) for e in dec(c['load']['j'])]
     return out
 
 
-HALVES = ('sync', 'async', 'async_plain')
+HALVES = ('sync', 'async', 'async_plain', 'async_seq')
 
 
 def halves(out):
@@ -571,8 +589,8 @@ def expected_single(c, e):
 def oracle(prop, c, out):
     f = []
     if prop == 'C11':
-        a, b, p = out['sync'], out['async'], out['async_plain']
-        for name, x, y in (('sync-vs-async', a, b), ('coroutine-vs-plain', b, p)):
+        a, b, p, q = out['sync'], out['async'], out['async_plain'], out['async_seq']
+        for name, x, y in (('sync-vs-async', a, b), ('coroutine-vs-plain', b, p), ('sync-vs-async-sequential', a, q)):
             if _proj_one('C11', c, x) != _proj_one('C11', c, y):
                 f.append(Finding(prop, f'twin-diff:{name}', f'{name}: the two halves answered differently', c,
                                  {'left': _proj_one('C11', c, x), 'right': _proj_one('C11', c, y)}))
@@ -769,6 +787,19 @@ def _c12_element(c, e, ev, fail):
     if len(execs) > 1 or (execs and inner[0]['e'] != 'exec'):
         fail('exec-order', 'more than one execution, or handlers before the execution')
         return
+    # which failure the element ends in, when the configuration makes that certain (no request-rewriting middleware)
+    raised = None
+    if not short and all(m['k'] in ('pass', 'wrapResult') for m in mws) and _valid_request_obj(e):
+        kind, det = expected_single(c, e)
+        raised = {'error': det, 'rpc': None if kind != 'rpc' else int(det['code']), 'exc': -32000}.get(kind)
+    if raised is not None:
+        want_n = len(table.get(None, [])) + len(table.get(str(raised), []))
+        if want_n and not hs:
+            fail('handlers-skipped', f'handling failed with {raised} but the error handlers configured for it did not run')
+            return
+        if hs and hs[0]['code'] != str(raised):
+            fail('handler-wrong-error', f'the first handler received code {hs[0]["code"]}, the raised error has {raised}')
+            return
     if hs:
         first_code = hs[0]['code']
         generic = table.get(None, [])
